@@ -49,7 +49,7 @@ def tok_ret(r):
     if r.k == 'Pair':
         out = []
         if r.std:
-            out.append(('std::', W))  # one lexeme in the grammar (Literal('std::'))
+            out += [_w('std'), _p('::')]
         out += [_w('pair'), _p('<')] + tok_type(r.first) + [_p(',')] + tok_type(r.second) + [_p('>')]
         return out
     return tok_type(r)
